@@ -98,6 +98,16 @@ def _strategy(exact):
                     case["modes"][l2][0] = case["modes"][l1][0]
                     case["coef"][l2 + "_mat"] = case["coef"][l1 + "_mat"]
                     case["alias"] = [l1, l2]
+            # dtype regime: one coefficient matrix is integer-valued and passed as an INTEGER array (the way a selection or
+            # difference matrix is usually written) next to real-valued offset vectors
+            mats = [k_ for k_ in case["coef"] if k_.endswith("_mat")]
+            if not exact and mats and draw(st.sampled_from([False] * 7 + [True])):
+                k_ = draw(st.sampled_from(sorted(mats)))
+                case["coef"][k_] = np.round(np.asarray(case["coef"][k_], float))
+                for k2 in mats:
+                    if case["coef"][k2] is not case["coef"][k_] and case["alias"] and k2[0] in case["alias"] and k_[0] in case["alias"]:
+                        case["coef"][k2] = case["coef"][k_]
+                case["int_mat"] = k_
             if key == "xb'xx'":
                 per = draw(st.booleans())
                 case["modes"]["b"] = ["per" if per else "shared"]
@@ -227,7 +237,9 @@ def _integrand(case, r, X):
 def _kwargs(case):
     from ..libx import J
 
-    kw = {k: J(v) for k, v in case["coef"].items()}
+    import jax.numpy as jnp
+
+    kw = {k: (jnp.asarray(np.asarray(v).astype(np.int64)) if k == case.get("int_mat") else J(v)) for k, v in case["coef"].items()}
     al = case.get("alias") or []
     if len(al) == 2:
         kw[al[1] + "_mat"] = kw[al[0] + "_mat"]  # the very same array object
@@ -313,6 +325,8 @@ def _labels(case):
         out.append("mode=" + "/".join(v))
     if case.get("alias"):
         out.append("aliased_matrices")
+    if case.get("int_mat"):
+        out.append("integer_dtype_matrix")
     return out
 
 
